@@ -345,9 +345,10 @@ PREFIXES = ["", "/", "/../", "/d/../", "/1/", "/a|", "/m|/MBOX-MESSAGE/", "/x.zi
 
 
 REALONLY = ["pygopherd.handlers.mbox.MaildirFolderHandler", "pygopherd.handlers.mbox.MaildirMessageHandler", "pygopherd.handlers.mbox.MBoxFolderHandler",
-            "pygopherd.handlers.mbox.MBoxMessageHandler", "pygopherd.handlers.pyg.PYGHandler", "pygopherd.handlers.scriptexec.ExecHandler"]
+            "pygopherd.handlers.mbox.MBoxMessageHandler", "pygopherd.handlers.pyg.PYGHandler", "pygopherd.handlers.scriptexec.ExecHandler",
+            "pygopherd.handlers.ZIP.ZIPHandler"]  # an archive inside an archive: zipfile.is_zipfile() wants a real path too
 
-NONREAL_SELS = ["/m", "/m|/MBOX-MESSAGE/1", "/md", "/md|/MAILDIR-MESSAGE/1", "/s.pyg", "/e", "/e|arg", "/a", "/"]
+NONREAL_SELS = ["/m", "/m|/MBOX-MESSAGE/1", "/md", "/md|/MAILDIR-MESSAGE/1", "/s.pyg", "/e", "/e|arg", "/a", "/", "/in.zip", "/in.zip/x"]
 
 
 def body_nonreal(hidx: int, sidx: int, real: bool) -> bool:
@@ -358,6 +359,7 @@ def body_nonreal(hidx: int, sidx: int, real: bool) -> bool:
     nodes["/md"] = mv.Dir(["new", "cur"])
     nodes["/md/new"] = mv.Dir([])
     nodes["/md/cur"] = mv.Dir([])
+    nodes["/in.zip"] = mv.File(b"PK")
     vfs = mv.MemVFS(cfg, nodes, real=real)
     hat = Hatches()
     dl.install_dir_env(vfs, 5000, dl.PickleStub())
@@ -564,12 +566,13 @@ def body_fspath(root: str, sel: str) -> bool:
 # ------------------------------------------------------------------ C01.8: selectors that come from content (gophermap lines)
 
 
-def body_gophermap(selfield: str, absolute: bool) -> bool:
+def body_gophermap(selfield: str, absolute: bool, urlp: bool = False) -> bool:
     from pygopherd.handlers import gophermap
 
     cfg = _full_config()
     nodes = _tree()
-    line = "0name\t" + ("/" if absolute else "") + selfield + "\r\n"
+    # urlp: the selector names a URL (`URL:mailto:x`, `URL:http://...`): it is not a path at all
+    line = "0name\t" + ("/" if absolute else "") + ("URL:" if urlp else "") + selfield + "\r\n"
     nodes["/d/gophermap"] = mv.File([line])
     vfs = mv.MemVFS(cfg, nodes)
     dl.install_dir_env(vfs, 5000, dl.PickleStub())
@@ -626,8 +629,8 @@ def obligations(tier, seed):
             ))
     obs.append(Ob(id="C01.9-nonreal-vfs", body="harness.C01:body_nonreal", sig="hidx: int, sidx: int, real: bool",
                   pre=["0 <= hidx < %d" % len(REALONLY), "0 <= sidx < %d" % len(NONREAL_SELS)], timeout=200,
-                  desc="mailbox/Maildir/PYG/exec handlers on a VFS that is not the real file system (a ZIP): never accept, never touch mailbox/import/subprocess",
-                  bounds="6 handler classes x 9 selectors x real/non-real VFS (symbolic indices)", functions=REALONLY))
+                  desc="mailbox/Maildir/PYG/exec/ZIP handlers on a VFS that is not the real file system (a ZIP): never accept, never touch mailbox/import/subprocess/zipfile",
+                  bounds="%d handler classes x %d selectors x real/non-real VFS (symbolic indices)" % (len(REALONLY), len(NONREAL_SELS)), functions=REALONLY))
     for kind, name in enumerate(["http", "wap", "gemini", "spartan"]):
         obs.append(Ob(id="C01.7-decode[%s]" % name, body="harness.C01:body_decode", sig="kind: int, path: str",
                       pre=["kind == %d" % kind, "1 <= len(path) <= %d" % (3 if tier == "quick" else 4), "all(c in '/.%2eE' + chr(92) + 'a?' for c in path)"]
@@ -642,6 +645,10 @@ def obligations(tier, seed):
                       desc="real BuckGophermapHandler.prepare on a gophermap link whose selector field is symbolic: every VFS access is inside the root",
                       bounds="selector field |s| <= %d over {. / o \\ NUL}, %s" % (4 if tier == "quick" else 5, "absolute" if absolute else "relative"),
                       functions=["pygopherd.handlers.gophermap.BuckGophermapHandler.prepare", "GopherEntry.populatefromvfs"]))
+    obs.append(Ob(id="C01.8-gophermap[url-prefix]", body="harness.C01:body_gophermap", sig="selfield: str, absolute: bool, urlp: bool",
+                  pre=["absolute == False", "urlp == True", "1 <= len(selfield) <= 3", "all(c in './o:' for c in selfield)"], timeout=240,
+                  desc="real BuckGophermapHandler.prepare on a gophermap link whose selector field is `URL:` + symbolic text (mailto:, news:, http://...): no VFS access outside the root (such a selector is not a path under the root)",
+                  bounds="selector field URL: + |s| <= 3 over {. / o :}", functions=["pygopherd.handlers.gophermap.BuckGophermapHandler.prepare"]))
     return obs
 
 
